@@ -1677,6 +1677,20 @@ class AND(LogicalOperator):
     """
     seen_left_values: SeenSet = field(default_factory=SeenSet, init=False)
 
+    @lru_cache(maxsize=None)
+    def _required_variables_from_child_(self, child: Optional[SymbolicExpression] = None, when_true: bool = True):
+        if not child:
+            child = self.left
+        if child is self.left and when_true:
+            # the left operand being true does not make the conjunction true: the right operand may still make it
+            # false, and then the variables that are needed where the conjunction is false (e.g. by the other branch
+            # of an enclosing disjunction) are required as well.
+            required_vars = HashedIterable()
+            required_vars.update(super()._required_variables_from_child_(child, True))
+            required_vars.update(super()._required_variables_from_child_(child, False))
+            return required_vars
+        return super()._required_variables_from_child_(child, when_true)
+
     def _evaluate__(self, sources: Optional[Dict[int, HashedValue]] = None, yield_when_false: bool = False) -> Iterable[Dict[int, HashedValue]]:
         # init an empty source if none is provided
         sources = sources or {}
